@@ -407,3 +407,33 @@ Proof.
   - destruct (asks b) as [|[? ?] ?]; reflexivity.
   - destruct (bids b) as [|[? ?] ?]; reflexivity.
 Qed.
+
+(** the L2 manager routes: book [i] ends as if it had received exactly its own events *)
+Lemma nth_upd_nth k f : forall bs i d, (i < length bs)%nat ->
+  nth i (upd_nth k f bs) d = if Nat.eqb k i then f (nth i bs d) else nth i bs d.
+Proof.
+  induction k as [|k IH]; intros [|b t] i d Hi; cbn [length] in Hi; try lia.
+  - destruct i; reflexivity.
+  - destruct i as [|i]; cbn [upd_nth nth Nat.eqb]; [reflexivity|]. apply IH. lia.
+Qed.
+
+Lemma length_upd_nth k f : forall bs, length (upd_nth k f bs) = length bs.
+Proof. induction k as [|k IH]; intros [|b t]; cbn [upd_nth length]; try reflexivity. rewrite IH. reflexivity. Qed.
+
+Lemma length_mgr_step bs me : length (mgr_step bs me) = length bs.
+Proof. unfold mgr_step. destruct (fst me); [apply length_upd_nth|reflexivity]. Qed.
+
+Lemma route_cons i k e evs :
+  route i ((k, e) :: evs) =
+  (match k with Some k' => if Nat.eqb k' i then [e] else [] | None => [] end) ++ route i evs.
+Proof. reflexivity. Qed.
+
+Lemma mgr_routes evs : forall bs i d, (i < length bs)%nat ->
+  nth i (fold_left mgr_step evs bs) d = fold_left update (route i evs) (nth i bs d).
+Proof.
+  induction evs as [|[k e] evs IH]; intros bs i d Hi; [reflexivity|].
+  cbn [fold_left]. rewrite IH by (rewrite length_mgr_step; exact Hi).
+  rewrite route_cons, fold_left_app. f_equal.
+  unfold mgr_step. cbn [fst snd]. destruct k as [k|]; [|reflexivity].
+  rewrite nth_upd_nth by exact Hi. destruct (Nat.eqb k i); reflexivity.
+Qed.
